@@ -142,6 +142,9 @@ pub struct InputList {
     /// The events as written, where `events` has the references to entities declared
     /// in the document's DOCTYPE replaced (a document passed through as it is keeps them).
     as_written: Option<Vec<InputEvent>>,
+    /// The document declares the SVG namespace on its root through an entity of its own
+    /// DOCTYPE (what `events` hold is then the document as written)
+    pub real_svg: bool,
 }
 
 impl From<&[InputEvent]> for InputList {
@@ -159,6 +162,7 @@ impl From<&[InputEvent]> for InputList {
                 })
                 .collect(),
             as_written: None,
+            real_svg: false,
         }
     }
 }
@@ -249,6 +253,11 @@ fn internal_entities(doctype: &[u8]) -> Vec<(Vec<u8>, Vec<u8>)> {
                 Some(end) => pos += end + 3,
                 None => break,
             }
+        } else if rest.starts_with(b"<?") {
+            match rest.windows(2).position(|w| w == b"?>") {
+                Some(end) => pos += end + 2,
+                None => break,
+            }
         } else if rest.starts_with(b"<!ENTITY") {
             let mut fields = rest["<!ENTITY".len()..]
                 .split(|c| c.is_ascii_whitespace())
@@ -266,7 +275,9 @@ fn internal_entities(doctype: &[u8]) -> Vec<(Vec<u8>, Vec<u8>)> {
                 Some(quote @ (b'"' | b'\'')) if name != b"%" => {
                     let value = &doctype[value_at + 1..];
                     let len = value.iter().position(|c| c == quote).unwrap_or(value.len());
-                    entities.push((name.to_vec(), value[..len].to_vec()));
+                    // (character references in the literal are part of the replacement
+                    // text as the characters they stand for)
+                    entities.push((name.to_vec(), resolve_char_refs(&value[..len])));
                     pos = value_at + 1 + len + 1;
                 }
                 // (a parameter entity, or one which is held elsewhere)
@@ -285,6 +296,35 @@ fn internal_entities(doctype: &[u8]) -> Vec<(Vec<u8>, Vec<u8>)> {
     entities
 }
 
+/// `literal` with its character references (`&#60;`, `&#x3c;`) replaced by the characters.
+fn resolve_char_refs(literal: &[u8]) -> Vec<u8> {
+    let mut out = Vec::with_capacity(literal.len());
+    let mut pos = 0;
+    while pos < literal.len() {
+        let rest = &literal[pos..];
+        let reference = rest.starts_with(b"&#").then(|| {
+            let end = rest.iter().take(12).position(|c| *c == b';')?;
+            let digits = std::str::from_utf8(&rest[2..end]).ok()?;
+            let code = match digits.strip_prefix('x') {
+                Some(hex) => u32::from_str_radix(hex, 16).ok()?,
+                None => digits.parse::<u32>().ok()?,
+            };
+            Some((end + 1, char::from_u32(code)?))
+        });
+        match reference.flatten() {
+            Some((len, ch)) => {
+                out.extend_from_slice(ch.encode_utf8(&mut [0; 4]).as_bytes());
+                pos += len;
+            }
+            None => {
+                out.push(rest[0]);
+                pos += 1;
+            }
+        }
+    }
+    out
+}
+
 /// `data` with the references to `entities` replaced (`None` if it holds none of them).
 /// References in comments, processing instructions and CDATA sections are text.
 fn expand_entities(data: &[u8], entities: &[(Vec<u8>, Vec<u8>)]) -> Result<Option<Vec<u8>>> {
@@ -296,6 +336,10 @@ fn expand_entities(data: &[u8], entities: &[(Vec<u8>, Vec<u8>)]) -> Result<Optio
         size_limit: usize,
         steps_left: usize,
         replaced: bool,
+        /// where in the markup of `data` itself the scan is: inside a tag, and there
+        /// inside an attribute value (replacement text must not end either)
+        in_tag: bool,
+        attr_quote: Option<u8>,
     }
     impl Expansion<'_> {
         fn expand(&mut self, data: &[u8], depth: usize) -> Result<()> {
@@ -343,7 +387,24 @@ fn expand_entities(data: &[u8], entities: &[(Vec<u8>, Vec<u8>)]) -> Result<Optio
                         pos += len;
                     }
                     None => {
-                        self.out.push(rest[0]);
+                        let byte = rest[0];
+                        match (depth, self.attr_quote) {
+                            // markup of the document itself
+                            (0, None) if !self.in_tag => self.in_tag = byte == b'<',
+                            (0, None) if byte == b'"' || byte == b'\'' => {
+                                self.attr_quote = Some(byte)
+                            }
+                            (0, None) => self.in_tag = byte != b'>',
+                            (0, Some(quote)) if byte == quote => self.attr_quote = None,
+                            _ => {}
+                        }
+                        match (depth > 0 && self.attr_quote.is_some(), byte) {
+                            // replacement text within an attribute value
+                            (true, b'"') => self.out.extend_from_slice(b"&quot;"),
+                            (true, b'\'') => self.out.extend_from_slice(b"&apos;"),
+                            (true, b'<') => self.out.extend_from_slice(b"&lt;"),
+                            _ => self.out.push(byte),
+                        }
                         pos += 1;
                     }
                 }
@@ -365,6 +426,8 @@ fn expand_entities(data: &[u8], entities: &[(Vec<u8>, Vec<u8>)]) -> Result<Optio
         size_limit: data.len() * 4 + (1 << 20),
         steps_left: data.len() + 100_000,
         replaced: false,
+        in_tag: false,
+        attr_quote: None,
     };
     expansion.expand(data, 0)?;
     Ok(expansion.replaced.then_some(expansion.out))
@@ -410,24 +473,53 @@ impl InputList {
         let doctype = find_doctype(&data);
         // References to the entities which the DOCTYPE declares stand for their
         // replacement text, as they do for any XML processor.
-        let expanded = match doctype {
-            Some((start, end)) => {
-                expand_entities(&data[end..], &internal_entities(&data[start..end]))?
+        let entities = match doctype {
+            Some((start, end)) => internal_entities(&data[start..end]),
+            None => vec![],
+        };
+        if let (Some((_, end)), false) = (doctype, entities.is_empty()) {
+            // A document which is passed through as it is needs no replacement (and is
+            // not subject to its bounds): only its namespace may have to be looked up.
+            let as_written = Self::read_document(&data, doctype, &data[end..])?;
+            let real_svg = as_written
+                .iter()
+                .find_map(|ev| ev.start_name_and_xmlns())
+                .is_some_and(|(name, xmlns)| {
+                    let xmlns = xmlns.unwrap_or_default();
+                    let declared = xmlns
+                        .strip_prefix('&')
+                        .and_then(|r| r.strip_suffix(';'))
+                        .and_then(|name| entities.iter().find(|(n, _)| n == name.as_bytes()))
+                        .map(|(_, value)| String::from_utf8_lossy(value).into_owned());
+                    name == "svg" && declared.unwrap_or(xmlns) == "http://www.w3.org/2000/svg"
+                });
+            if real_svg {
+                return Ok(Self {
+                    events: as_written,
+                    as_written: None,
+                    real_svg: true,
+                });
             }
+        }
+        let expanded = match doctype {
+            Some((_, end)) => expand_entities(&data[end..], &entities)?,
             None => None,
         };
         match (doctype, expanded) {
             (Some((_, end)), Some(expanded)) => Ok(Self {
                 events: Self::read_document(&data, doctype, &expanded)?,
                 as_written: Some(Self::read_document(&data, doctype, &data[end..])?),
+                real_svg: false,
             }),
             (Some((_, end)), None) => Ok(Self {
                 events: Self::read_document(&data, doctype, &data[end..])?,
                 as_written: None,
+                real_svg: false,
             }),
             (None, _) => Ok(Self {
                 events: Self::read_document(&data, None, &data)?,
                 as_written: None,
+                real_svg: false,
             }),
         }
     }
@@ -570,6 +662,7 @@ impl InputList {
         Self {
             events: self.events[start..end].to_vec(),
             as_written: None,
+            real_svg: false,
         }
     }
 }
